@@ -5,6 +5,7 @@ import ComposeVerif.Lemmas.C02StageInterp
 import ComposeVerif.Lemmas.C02StagePaths
 import ComposeVerif.Lemmas.C02StageValidate
 import ComposeVerif.Lemmas.C02StageCanonical
+import ComposeVerif.Lemmas.C02StageCompose
 /-!
 # C02 — `stage_perm`: the loader stages do not depend on the order in which Go ranges over mappings
 
@@ -163,6 +164,56 @@ theorem validate_checker_perm (c : CV.Validate.Checker) {v w : Val} (h : CV.Deep
 theorem validate_ok_iff_no_failure (t : Val) : CV.Validate.validate t = .ok ↔ CV.Validate.validTreeB t = true :=
   validate_ok_iff t
 
+/-! ## composition: a pipeline of stages -/
+
+/-- **a pipeline of stages that each respect the equivalence respects it** (`runStages` = run them in sequence, stop at
+the first failure; `WFAlong` = the input and every intermediate tree has distinct keys everywhere, which every Go
+`map[string]any` has by construction) -/
+theorem stages_compose (fs : List StageFn) (hall : ∀ f ∈ fs, Respects f) {v w : Val} (h : CV.Deep.Eqv v w)
+    (hv : WFAlong fs v) (hw : WFAlong fs w) : ORel CV.Deep.Eqv (runStages fs v) (runStages fs w) :=
+  runStages_respects fs hall v w h hv hw
+
+/-- **the stages a service definition goes through, composed**: `Interpolate`, `Canonical`, `SetDefaultValues`,
+`ResolveRelativePaths` run one after the other on the subtree at or below `services.<name>` — two spellings of the
+subtree that differ only in the order of mapping entries (any depth) end as such spellings of one result, or both fail
+(at whichever stage) -/
+theorem service_pipeline_perm (c : CV.Interp.Cfg) (ign : Bool) (tbl : List (List String × String)) (t : CV.Paths.Table)
+    (cfg : CV.Paths.Cfg) (rest : List String) {v w : Val} (h : CV.Deep.Eqv v w)
+    (hv : WFAlong [interpStage c ("services" :: rest), canonicalStage ign ("services" :: rest),
+      defaultsStage tbl ("services" :: rest), pathsStage t cfg ("services" :: rest)] v)
+    (hw : WFAlong [interpStage c ("services" :: rest), canonicalStage ign ("services" :: rest),
+      defaultsStage tbl ("services" :: rest), pathsStage t cfg ("services" :: rest)] w) :
+    ORel CV.Deep.Eqv
+      (runStages [interpStage c ("services" :: rest), canonicalStage ign ("services" :: rest),
+        defaultsStage tbl ("services" :: rest), pathsStage t cfg ("services" :: rest)] v)
+      (runStages [interpStage c ("services" :: rest), canonicalStage ign ("services" :: rest),
+        defaultsStage tbl ("services" :: rest), pathsStage t cfg ("services" :: rest)] w) := by
+  apply runStages_respects _ _ v w h hv hw
+  intro f hf
+  simp only [List.mem_cons, List.not_mem_nil, or_false] at hf
+  rcases hf with rfl | rfl | rfl | rfl
+  · exact respects_interp c _
+  · exact respects_canonical ign _ (noExt_services rest)
+  · exact respects_defaults tbl _
+  · exact respects_paths t cfg _
+
+/-- **the whole-document stages without `Canonical`, composed**: `Interpolate`, `Validate`, `SetDefaultValues`,
+`ResolveRelativePaths` on the document -/
+theorem document_pipeline_perm (c : CV.Interp.Cfg) (tbl : List (List String × String)) (t : CV.Paths.Table)
+    (cfg : CV.Paths.Cfg) (p : TPath) {v w : Val} (h : CV.Deep.Eqv v w)
+    (hv : WFAlong [interpStage c p, validateStage, defaultsStage tbl p, pathsStage t cfg p] v)
+    (hw : WFAlong [interpStage c p, validateStage, defaultsStage tbl p, pathsStage t cfg p] w) :
+    ORel CV.Deep.Eqv (runStages [interpStage c p, validateStage, defaultsStage tbl p, pathsStage t cfg p] v)
+      (runStages [interpStage c p, validateStage, defaultsStage tbl p, pathsStage t cfg p] w) := by
+  apply runStages_respects _ _ v w h hv hw
+  intro f hf
+  simp only [List.mem_cons, List.not_mem_nil, or_false] at hf
+  rcases hf with rfl | rfl | rfl | rfl
+  · exact respects_interp c _
+  · exact respects_validate
+  · exact respects_defaults tbl _
+  · exact respects_paths t cfg _
+
 /-- the walker loop for recursive calls that respect the equivalence (the core of the whole-tree theorems) -/
 theorem walker_loop_deep (g g' : String → Val → Option Val) {a b : KVs} (hm : CV.Deep.MEqv a b)
     (wa : CV.Deep.MWF a) (wb : CV.Deep.MWF b)
@@ -194,5 +245,9 @@ example : CV.Short.transformDependsOn (.map [("db", .map [("condition", .str "se
     .ok (.map [("db", .map [("condition", .str "service_healthy"), ("required", .bool true)]),
       ("c", .map [("condition", .str "service_started"), ("required", .bool true)])]) := by
   simp [CV.Short.transformDependsOn, CV.Short.dependsMap, CV.Short.dependsDefaults, CV.Short.hasKey, Val.lookup]
+
+/-- `WFAlong` is satisfiable: a scalar document through the validation stage -/
+example : WFAlong [validateStage] (.str "x") := ⟨.str _, fun x hx => by
+  unfold validateStage at hx; split at hx <;> cases hx; exact .str _⟩
 
 end CV.Det.Stage.Props
